@@ -467,6 +467,9 @@ func (x *Explorer) callParts(c *ast.CallExpr, states []*State) []*State {
 		states = x.expr(f.X, states)
 	case *ast.FuncLit:
 		states = x.expr(f, states)
+	case *ast.TypeAssertExpr, *ast.CallExpr, *ast.IndexExpr:
+		// the callee is itself computed: v.Interface().(Func)(args), table[k](args), mk()(args)
+		states = x.expr(f, states)
 	}
 	for _, a := range c.Args {
 		states = x.expr(a, states)
